@@ -8,6 +8,14 @@ import apiprops
 REGISTRY = {}
 
 
+def _acc(tot, c):
+    for k, v in c.items():
+        if k.startswith("max_"):
+            tot[k] = max(tot.get(k, v), v)
+        else:
+            tot[k] = tot.get(k, 0) + v
+
+
 def prop(pid):
     def deco(fn):
         REGISTRY[pid] = fn
@@ -32,7 +40,10 @@ def c01(tier, seed):
     chk.assumptions = ASSUME_API
     variants = QUICK_V if tier == "quick" else THOROUGH_V
     c, d, s = apiprops.run_api(chk, "C01", variants)
-    extra = dict(counters=c, chunk_variants=["%dB" % (b * 16) for b, _ in variants])
+    # production constants (16 MiB chunks, 32 MiB refill), optimised build, lengths around the real chunk size
+    c2, d2, s2 = apiprops.run_api(chk, "C01", [(None, None)], san="fast", extra_args=["--sub", "prod"], stall_s=180.0)
+    _acc(c, c2); _acc(d, d2); s = s + s2[:2]
+    extra = dict(counters=c, chunk_variants=["%dB" % (b * 16) for b, _ in variants] + ["16MiB (production)"])
     return chk.finish(c.get("decrypts", 0), d.get("class", 0),
                       "every plaintext length 0..5c+17 for chunk size c x cmode 0-4 x T set x hmode; a case is one "
                       "encrypt+decrypt round trip on real threads under ASan+UBSan; distinct = (n mod 16, n mod c, "
@@ -46,7 +57,9 @@ def c02(tier, seed):
     chk.assumptions = ASSUME_API
     variants = QUICK_V if tier == "quick" else THOROUGH_V
     c, d, s = apiprops.run_api(chk, "C02", variants)
-    extra = dict(counters=c, chunk_variants=["%dB" % (b * 16) for b, _ in variants])
+    c2, d2, s2 = apiprops.run_api(chk, "C02", [(None, None)], san="fast", extra_args=["--sub", "prod"], stall_s=180.0)
+    _acc(c, c2); _acc(d, d2); s = s + s2[:2]
+    extra = dict(counters=c, chunk_variants=["%dB" % (b * 16) for b, _ in variants] + ["16MiB (production)"])
     return chk.finish(c.get("files", 0), d.get("class", 0),
                       "every plaintext length 0..4c+17 x cmode x T set x hmode; each output compared byte for byte with "
                       "the OpenSSL-based reference of the documented format, plus length formula, determinism re-run, "
@@ -108,14 +121,6 @@ def c12(tier, seed):
                        "genuine (incl. chunk-boundary lengths), tampered, truncated, garbage and wrong-key inputs, each through "
                        "execute_verify and execute_decrypt; oracle: equal verdicts, verify writes nothing, no write reaches an "
                        "input stream; distinct = (class, offset, arg, length, verdict)", 20000)
-
-
-def _acc(tot, c):
-    for k, v in c.items():
-        if k.startswith("max_"):
-            tot[k] = max(tot.get(k, v), v)
-        else:
-            tot[k] = tot.get(k, 0) + v
 
 
 @prop("C07")
